@@ -38,6 +38,9 @@ Inductive stage :=
 | SMap (f : A -> A)
 | SFilter (p : A -> bool)
 | SFlatMap (g : A -> list A)
+| SIdx (f : Z -> Z -> A -> A)       (* element-wise function of (partition index, position in the partition, element):
+                                      mapPartitionsWithIndex over enumerate, or a function reading the task context's
+                                      partition id as zipWithUniqueId does *)
 | SPart (h : list A -> list A)      (* mapPartitions / mapPartitionsWithIndex with a generator function
                                       that consumes its whole input (in any number of steps) when first pulled *)
 | SPersist.
@@ -45,8 +48,13 @@ Inductive stage :=
 Definition node := (Z * stage)%type.          (* (dataset id, what it does to its parent) *)
 
 (* ------------------------------------------------------------------ cache-free evaluator *)
-Definition plain_stage (s : stage) (xs : list A) : list A :=
+Fixpoint enum_from {X Y} (g : Z -> X -> Y) (e : Z) (l : list X) : list Y :=
+  match l with [] => [] | x :: l' => g e x :: enum_from g (e + 1) l' end.
+
+(* [i]: the index of the partition *)
+Definition plain_stage (i : Z) (s : stage) (xs : list A) : list A :=
   match s with
+  | SIdx f => enum_from (f i) 0 xs
   | SMap f => map f xs
   | SFilter p => filter p xs
   | SFlatMap g => flat_map g xs
@@ -55,14 +63,14 @@ Definition plain_stage (s : stage) (xs : list A) : list A :=
   end.
 
 (* stages in pipeline order (source first) *)
-Definition plain_eval (sts : list stage) (xs : list A) : list A :=
-  fold_left (fun acc s => plain_stage s acc) sts xs.
+Definition plain_eval (i : Z) (sts : list stage) (xs : list A) : list A :=
+  fold_left (fun acc s => plain_stage i s acc) sts xs.
 
 (* the same with the node list in REVERSE order (last stage first), as [compute] descends *)
-Fixpoint plain_rev (rn : list node) (xs : list A) : list A :=
+Fixpoint plain_rev (i : Z) (rn : list node) (xs : list A) : list A :=
   match rn with
   | [] => xs
-  | (_, s) :: up => plain_stage s (plain_rev up xs)
+  | (_, s) :: up => plain_stage i s (plain_rev i up xs)
   end.
 
 (* ------------------------------------------------------------------ lazy streams *)
@@ -98,6 +106,13 @@ Fixpoint lflat_go (rid i : Z) (g : A -> list A) (pend : list event) (cs : list c
       end
   end.
 Definition lflat rid i g (s : lstream) := lflat_go rid i g [] (cells s) (trail s).
+
+Fixpoint lidx_go (rid i : Z) (f : Z -> Z -> A -> A) (e : Z) (cs : list cell) : list cell :=
+  match cs with
+  | [] => []
+  | (evs, x) :: cs' => (evs ++ [Ev rid i (Some x)], f i e x) :: lidx_go rid i f (e + 1) cs'
+  end.
+Definition lidx (rid i : Z) (f : Z -> Z -> A -> A) (s : lstream) : lstream := LS (lidx_go rid i f 0 (cells s)) (trail s).
 
 (* a generator function over the partition iterator: nothing happens until the first element is asked
    for; then the body starts (logged), consumes the whole input -- every upstream call happens now --
@@ -227,6 +242,8 @@ Fixpoint compute (now : Z) (rn : list node) (i : Z) (src : list A) (m : mgr)
       let '(s, m1, ev) := compute now up i src m in (lflat rid i g s, m1, ev)
   | (rid, SPart h) :: up =>
       let '(s, m1, ev) := compute now up i src m in (lpart rid i h s, m1, ev)
+  | (rid, SIdx f) :: up =>
+      let '(s, m1, ev) := compute now up i src m in (lidx rid i f s, m1, ev)
   end.
 
 (* ------------------------------------------------------------------ jobs *)
@@ -353,8 +370,10 @@ Fixpoint delete_parts (rid : Z) (n : nat) (i : Z) (m : mgr) : mgr :=
   end.
 
 (* contents of node j of a pipeline according to the cache-free evaluator *)
+Fixpoint imap_from {X Y} (g : Z -> X -> Y) (i : Z) (l : list X) : list Y :=
+  match l with [] => [] | x :: l' => g i x :: imap_from g (i + 1) l' end.
 Definition node_contents (P : pipeline) (j : nat) : list (list A) :=
-  map (plain_rev (rev_prefix j (p_nodes P))) (p_parts P).
+  imap_from (fun i => plain_rev i (rev_prefix j (p_nodes P))) 0 (p_parts P).
 
 Definition step (w : world) (st : state) (a : action) : result * list event * state :=
   match a with
@@ -446,7 +465,7 @@ Definition spec_action (w : world) (a : action) : result :=
 
 End Model.
 
-Arguments Ev {A}. Arguments SMap {A}. Arguments SFilter {A}. Arguments SFlatMap {A}. Arguments SPart {A}. Arguments SPersist {A}.
+Arguments Ev {A}. Arguments SMap {A}. Arguments SFilter {A}. Arguments SFlatMap {A}. Arguments SPart {A}. Arguments SIdx {A}. Arguments SPersist {A}.
 Arguments LS {A}. Arguments Mgr {A}. Arguments Pipe {A}. Arguments World {A}. Arguments St {A}.
 Arguments RList {A}. Arguments RCount {A}. Arguments RElem {A}. Arguments RStop {A}. Arguments RNode {A}.
 Arguments RUnit {A}. Arguments RBad {A}.
@@ -460,6 +479,8 @@ Arguments lfilter {A}.
 Arguments lflat_go {A}.
 Arguments lflat {A}.
 Arguments lpart {A}.
+Arguments lidx_go {A}.
+Arguments lidx {A}.
 Arguments stream_elems {A}.
 Arguments stream_events {A}.
 Arguments force {A}.
